@@ -201,8 +201,9 @@ struct Driver {
             bc.min_manifest_ttl = std::chrono::seconds(1); bc.max_manifest_ttl = std::chrono::hours(24);
             b = std::make_unique<Node>(pid(40), bc);
             const auto& sc = a->config();
+            static long bi = 0;
             ev::Ev e("reset");
-            e.i("rmin", clampms(raw.min_manifest_ttl.count() * 1000)).i("rmax", clampms(raw.max_manifest_ttl.count() * 1000)).i("rdef", clampms(raw.default_chunk_ttl.count() * 1000))
+            e.i("bi", ++bi).i("rmin", clampms(raw.min_manifest_ttl.count() * 1000)).i("rmax", clampms(raw.max_manifest_ttl.count() * 1000)).i("rdef", clampms(raw.default_chunk_ttl.count() * 1000))
              .i("rrot", clampms(raw.key_rotation_interval.count() * 1000)).i("rapow", raw.announce_pow_difficulty).i("rhpow", raw.handshake_pow_difficulty).i("rspow", raw.store_pow_difficulty)
              .i("min", clampms(sc.min_manifest_ttl.count() * 1000)).i("max", clampms(sc.max_manifest_ttl.count() * 1000)).i("deflt", clampms(sc.default_chunk_ttl.count() * 1000))
              .i("rot", clampms(sc.key_rotation_interval.count() * 1000)).i("apow", sc.announce_pow_difficulty).i("hpow", sc.handshake_pow_difficulty).i("spow", sc.store_pow_difficulty)
